@@ -18,6 +18,6 @@ blk = '<!-- asbuilt table begin -->\n' + table + '\n<!-- asbuilt table end -->'
 if '<!-- asbuilt table begin -->' in s:
     s = re.sub(r'<!-- asbuilt table begin -->.*?<!-- asbuilt table end -->', lambda _: blk, s, flags=re.S)
 else:
-    s = s.replace('## 10. Seeded changes', '### 9.6 Numbers of the last run (quick tier), from the evidence files\n\n' + blk + '\n\n## 10. Seeded changes', 1)
+    s = s.replace('## 10. Seeded changes', '### 9.7 Numbers of the last run (quick tier), from the evidence files\n\n' + blk + '\n\n## 10. Seeded changes', 1)
 open(p, 'w').write(s)
 print(len(rows), 'rows')
